@@ -89,10 +89,11 @@ def run(tier, seed):
         plan = [(cc, 1), ([c for c in cc if len(c["groups"]) == 1][::2], 2)]
     else:
         plan = [(conc_cases(2), 3), (conc_cases(3), 2)]
+    plan += [([dict(c, batch=True) for c in cs], max(0, d - 1)) for (cs, d) in list(plan)]     # several answers per reactor turn
     desc = []
     for cases, d in plan:
         res.merge(common.pmap(lib_imm.explore_chunk, cases, (seed, d, 0, 20000, "C04"), chunks=len(cases)))
-        desc.append("%d concurrent multisets of %d reads at d<=%d" % (len(cases), len(cases[0]["groups"][0]), d))
+        desc.append("%d concurrent multisets of %d reads at d<=%d%s" % (len(cases), len(cases[0]["groups"][0]), d, " (several answers per reactor turn)" if cases[0].get("batch") else ""))
     cov = lib_imm.coverage_from(res, "single reads: %d (offset,size) pairs x {fresh node, node that already read another range} + %d literal reads at the default schedule (%d executions); then %s, deviations = reordered deliveries, early timers, consumer pause/stop at any write" % (len(OFFS) * len(SIZES), len(lits), n0, "; ".join(desc)),
                                 {"deviation_bound_completed": max(p[1] for p in plan)})
     return res, cov
